@@ -264,11 +264,32 @@ def other_contracts():
 STOKES = ['StokesIPyTree', 'StokesQUPyTree', 'StokesIQUPyTree', 'StokesIQUVPyTree']
 
 
-def stokes_input(S, which):
+class StaticFacet:
+    """value factories of the `static` facet for the shared mv scenario builders (`mv_makers`): other facets that run
+    every mv of the repo (C04's `lin`) pass their own factories"""
+
+    def __init__(self, P):
+        self.Other = other_operator(P)
+
+    def sds(self):
+        return STT.SDS()
+
+    def param(self, what, kind='num'):
+        return STT.TArr('param', kind, what=what)
+
+    def x_leaf(self, name='x'):
+        return STT.TArr('input', what=name)
+
+    def other(self, tag):
+        return Obj(self.Other, tag=tag)
+
+
+def stokes_input(S, which, F=None):
+    F = F or StaticFacet(S.ck.P)
     ci = S.ck.P.cls(f'{LS}.{STOKES[which]}')
     o = Obj(ci)
     for f in ci.all_fields():
-        o.fields[f.name] = STT.TArr('input', what=f'x.{f.name}')
+        o.fields[f.name] = F.x_leaf(f'x.{f.name}')
     return o
 
 
@@ -276,33 +297,32 @@ def x_leaf(name='x'):
     return STT.TArr('input', what=name)
 
 
-def x_tree(S):
+def x_tree(S, F=None):
     """the operator input: one leaf, a list of two leaves, or a dict"""
+    leaf = F.x_leaf if F is not None else x_leaf
     k = S.choose(3)
     S.inputs['input_tree'] = ['leaf', 'list2', 'dict'][k]
     if k == 0:
-        return x_leaf()
+        return leaf('x')
     if k == 1:
-        return B.PyList([x_leaf('x[0]'), x_leaf('x[1]')])
-    return {'a': x_leaf('x.a'), 'b': x_leaf('x.b')}
+        return B.PyList([leaf('x[0]'), leaf('x[1]')])
+    return {'a': leaf('x.a'), 'b': leaf('x.b')}
 
 
-def build_tracesafety(ck):
-    P = ck.P
-    T = theory_c()
-    Other = other_operator(P)
-    contracts = other_contracts()
-    ck.assume_note('C18(c): operands of composite operators are arbitrary trace-safe operators (induction hypothesis: '
-                   'contract of OtherOperator.mv); containers of operands / blocks are explored for the listed small '
-                   'pytree shapes')
-    ck.assume_note('C18(c): class invariants of the constructors are assumed where a helper needs them '
-                   '(SymmetricBandToeplitzOperator.method in METHODS — C09; RavelOperator axes within rank — C13)')
+def mv_makers(P, F):
+    """scenario builders, one per class that defines an mv: name -> fn(S) -> (operator instance with symbolic fields,
+    input pytree).  F supplies the facet's values (structure tokens, parameter arrays, input leaves, the synthetic
+    operand of composite operators); shared by C18 (`static`) and C04 (`lin`)."""
+    SDS, param, other = F.sds, F.param, F.other
 
-    def other(tag):
-        return Obj(Other, tag=tag)
+    def x_leaf(name='x'):
+        return F.x_leaf(name)
 
-    def param(what, kind='num'):
-        return STT.TArr('param', kind, what=what)
+    def x_tree_(S):
+        return x_tree(S, F)
+
+    def stokes_input_(S, which):
+        return stokes_input(S, which, F)
 
     makers = {}
 
@@ -317,16 +337,16 @@ def build_tracesafety(ck):
         k = S.choose(3)
         ops = [B.PyList([other('A')]), B.PyList([other('A'), other('B'), other('C')]),
                {'a': other('A'), 'b': B.PyList([other('B'), other('C')])}][k]
-        return S.new('AdditionOperator', operands=ops), x_tree(S)
+        return S.new('AdditionOperator', operands=ops), x_tree_(S)
 
     @maker('CompositionOperator')
     def _(S):
         k = S.choose(3)
-        return S.new('CompositionOperator', operands=B.PyList([other(f'O{i}') for i in range(k + 1)])), x_tree(S)
+        return S.new('CompositionOperator', operands=B.PyList([other(f'O{i}') for i in range(k + 1)])), x_tree_(S)
 
     @maker('TransposeOperator')
     def _(S):
-        return S.new('TransposeOperator', operator=other('A')), x_tree(S)
+        return S.new('TransposeOperator', operator=other('A')), x_tree_(S)
 
     @maker('InverseOperator')
     def _(S):
@@ -334,21 +354,21 @@ def build_tracesafety(ck):
         opts = [{}, {'preconditioner': other('M')}][S.choose(2)]
         cfg.fields.update(solver=Ext('lineax.CG()'), solver_throw=S.bool('throw'), solver_options=opts,
                           solver_callback=PyFunc(lambda interp, s: None, 'callback'))
-        return S.new('InverseOperator', operator=other('A'), config=cfg), x_tree(S)
+        return S.new('InverseOperator', operator=other('A'), config=cfg), x_tree_(S)
 
     @maker('IdentityOperator')
     def _(S):
-        return S.new('IdentityOperator', _in_structure=STT.SDS()), x_tree(S)
+        return S.new('IdentityOperator', _in_structure=SDS()), x_tree_(S)
 
     @maker('HomothetyOperator')
     def _(S):
-        return S.new('HomothetyOperator', value=param('value'), _in_structure=STT.SDS()), x_tree(S)
+        return S.new('HomothetyOperator', value=param('value'), _in_structure=SDS()), x_tree_(S)
 
     def diag(cls):
         def mk(S):
             axes = S.seq('axis_destination')
             S.assume(to_z3(axes.length) >= 1)
-            o = S.new(cls, _diagonal=param('diagonal'), axis_destination=axes, _in_structure=STT.SDS())
+            o = S.new(cls, _diagonal=param('diagonal'), axis_destination=axes, _in_structure=SDS())
             if cls == 'DiagonalInverseOperator':
                 o.fields['operator'] = S.new('DiagonalOperator', _diagonal=o.fields['_diagonal'], axis_destination=axes,
                                              _in_structure=o.fields['_in_structure'])
@@ -364,12 +384,12 @@ def build_tracesafety(ck):
         S.inputs['case'] = k
         subs = 'ij...,j...->i...'
         if k == 0:
-            return S.new('DenseBlockDiagonalOperator', blocks=param('blocks'), _in_structure=STT.SDS(), subscripts=subs), x_leaf()
+            return S.new('DenseBlockDiagonalOperator', blocks=param('blocks'), _in_structure=SDS(), subscripts=subs), x_leaf()
         if k == 1:
-            return S.new('DenseBlockDiagonalOperator', blocks=param('blocks'), _in_structure=STT.SDS(), subscripts=subs), \
+            return S.new('DenseBlockDiagonalOperator', blocks=param('blocks'), _in_structure=SDS(), subscripts=subs), \
                 B.PyList([x_leaf('x[0]'), x_leaf('x[1]')])
         return S.new('DenseBlockDiagonalOperator', blocks=B.PyList([param('blocks[0]'), param('blocks[1]')]),
-                     _in_structure=STT.SDS(), subscripts=subs), B.PyList([x_leaf('x[0]'), x_leaf('x[1]')])
+                     _in_structure=SDS(), subscripts=subs), B.PyList([x_leaf('x[0]'), x_leaf('x[1]')])
 
     @maker('IndexOperator')
     def _(S):
@@ -377,34 +397,34 @@ def build_tracesafety(ck):
         idx = [(S.int('i'),), (slice(None), S.int('i')), (Ellipsis, param('indices', 'int')),
                (param('mask', 'bool'),), (slice(0, S.int('stop')), param('indices', 'int'))][k]
         S.inputs['indices'] = ['int', 'slice,int', 'ellipsis,int-array', 'bool-mask', 'slice,int-array'][k]
-        o = S.new('IndexOperator', indices=idx, _in_structure=STT.SDS(), _out_structure=STT.SDS(), unique_indices=S.bool('unique'))
-        return o, x_tree(S)
+        o = S.new('IndexOperator', indices=idx, _in_structure=SDS(), _out_structure=SDS(), unique_indices=S.bool('unique'))
+        return o, x_tree_(S)
 
     @maker('PackOperator')
     def _(S):
-        return S.new('PackOperator', mask=param('mask', 'bool'), _in_structure=STT.SDS()), x_leaf()
+        return S.new('PackOperator', mask=param('mask', 'bool'), _in_structure=SDS()), x_leaf()
 
     @maker('MoveAxisOperator')
     def _(S):
         return S.new('MoveAxisOperator', source=S.seq('source'), destination=S.seq('destination'),
-                     _in_structure=STT.SDS()), x_tree(S)
+                     _in_structure=SDS()), x_tree_(S)
 
     @maker('RavelOperator')
     def _(S):
         return S.new('RavelOperator', first_axis=S.int('first_axis'), last_axis=S.int('last_axis'),
-                     _in_structure=STT.SDS()), x_tree(S)
+                     _in_structure=SDS()), x_tree_(S)
 
     @maker('ReshapeOperator')
     def _(S):
-        return S.new('ReshapeOperator', shape=S.seq('shape'), _in_structure=STT.SDS()), x_tree(S)
+        return S.new('ReshapeOperator', shape=S.seq('shape'), _in_structure=SDS()), x_tree_(S)
 
     @maker('ReshapeTransposeOperator')
     def _(S):
         k = S.choose(2)
         if k == 0:
-            inner = S.new('ReshapeOperator', shape=S.seq('shape'), _in_structure=STT.SDS())
+            inner = S.new('ReshapeOperator', shape=S.seq('shape'), _in_structure=SDS())
         else:
-            inner = S.new('RavelOperator', first_axis=S.int('first_axis'), last_axis=S.int('last_axis'), _in_structure=STT.SDS())
+            inner = S.new('RavelOperator', first_axis=S.int('first_axis'), last_axis=S.int('last_axis'), _in_structure=SDS())
         return S.new('ReshapeTransposeOperator', operator=inner), x_leaf()
 
     def blocks_and_input(S, same_structure):
@@ -437,7 +457,7 @@ def build_tracesafety(ck):
         def mk(S):
             k = S.choose(len(STOKES))
             S.inputs['stokes'] = STOKES[k]
-            return S.new(cls, _in_structure=STT.SDS(), **{n: v() for n, v in fields.items()}), stokes_input(S, k)
+            return S.new(cls, _in_structure=SDS(), **{n: v() for n, v in fields.items()}), stokes_input_(S, k)
         return mk
     makers['HWPOperator'] = stokes_op('HWPOperator')
     makers['LinearPolarizerOperator'] = stokes_op('LinearPolarizerOperator')
@@ -447,8 +467,8 @@ def build_tracesafety(ck):
     def _(S):
         k = S.choose(len(STOKES))
         S.inputs['stokes'] = STOKES[k]
-        inner = S.new('QURotationOperator', angles=param('angles'), _in_structure=STT.SDS())
-        return S.new('QURotationTransposeOperator', operator=inner), stokes_input(S, k)
+        inner = S.new('QURotationOperator', angles=param('angles'), _in_structure=SDS())
+        return S.new('QURotationTransposeOperator', operator=inner), stokes_input_(S, k)
 
     @maker('SymmetricBandToeplitzOperator')
     def _(S):
@@ -457,7 +477,7 @@ def build_tracesafety(ck):
         m = methods[S.choose(len(methods))]
         S.inputs['method'] = m
         fft = S.int('fft_size') if m.startswith('overlap_') else None
-        o = S.new('SymmetricBandToeplitzOperator', band_values=param('band_values'), _in_structure=STT.SDS(), method=m,
+        o = S.new('SymmetricBandToeplitzOperator', band_values=param('band_values'), _in_structure=SDS(), method=m,
                   fft_size=fft)
         return o, x_leaf()
 
@@ -469,6 +489,20 @@ def build_tracesafety(ck):
     def _(S):
         inner = S.new('ToastObservationMatrixOperator', matrix=param('matrix (CSR)'))
         return S.new('ToastObservationMatrixTransposeOperator', operator=inner), x_leaf()
+
+    return makers
+
+
+def build_tracesafety(ck):
+    P = ck.P
+    T = theory_c()
+    contracts = other_contracts()
+    ck.assume_note('C18(c): operands of composite operators are arbitrary trace-safe operators (induction hypothesis: '
+                   'contract of OtherOperator.mv); containers of operands / blocks are explored for the listed small '
+                   'pytree shapes')
+    ck.assume_note('C18(c): class invariants of the constructors are assumed where a helper needs them '
+                   '(SymmetricBandToeplitzOperator.method in METHODS — C09; RavelOperator axes within rank — C13)')
+    makers = mv_makers(P, StaticFacet(P))
 
     # loops that carry an array through iterations: contract = "the carried value is a traced array"
     def carried(*names):
